@@ -1,6 +1,7 @@
 /- Model/C05Gen.lean — the C05 model instantiated with the facts the translator extracted. -/
 import PsutilModel.Model.C05
 import PsutilModel.Model.C05Dyn
+import PsutilModel.Model.C05Seq
 import PsutilModel.Generated.C05
 namespace Psutil.C05
 
@@ -15,13 +16,19 @@ def cfg : Cfg :=
     childrenGuarded := Gen.C05.childrenGuarded
     ppidGuarded := Gen.C05.ppidGuarded
     lowestStop := Gen.C05.lowestStop
-    goneRaises := Gen.C05.goneRaises }
+    goneRaises := Gen.C05.goneRaises
+    rootGuarded := Gen.C05.rootGuarded }
 
 /-- the walkers in the richer world (Model/C05Dyn.lean): the same facts plus the `except` of ppid_map() -/
 def xcfg : XCfg :=
   { base := cfg
     mapSkipsDenied := Gen.C05.ppidMapSkipsDenied
     mapSkipsGone := Gen.C05.ppidMapSkipsGone }
+
+/-- what the object keeps between two calls (Model/C05Seq.lean) -/
+def ocfg : ObjCfg :=
+  { ppidUncached := Gen.C05.ppidUncached
+    ctimeCached := Gen.C05.ctimeCached }
 
 /-- how the two stat readers cut the line, as extracted from the current source -/
 def scfg : StatCfg :=
